@@ -1,1 +1,270 @@
-import DDP.Impl.Scanner
+import DDP.Proofs.Scanner
+
+/-!
+# C13 — the token stream is a faithful, positioned partition of the source
+
+Property theorems over `DDP.Scanner.scan` (L1 model of `src/scanner/scanner.go`, tied to
+the code by the exhaustive correspondence run of `./check C13`) and the regenerated
+keyword table (`DDP.Generated.keywordMap`).  Helper lemmas live in `DDP/Proofs/Scanner.lean`.
+-/
+
+namespace DDP.Scanner
+open DDP.Generated
+
+/-- The scanner terminates on every source, in both modes, from every origin
+(also the C03 obligation `scan_total`): the fuel `|src|+1` is never exhausted, because
+every token consumes at least one code point (`BodyOk.nonempty`). -/
+theorem scan_total (m : Mode) (origin : Pos) (indent : Nat) (src : List Char) :
+    ∃ r, scan m origin indent src = some r := by
+  obtain ⟨r, h, _⟩ := scanAllFuel_spec m (src.length + 1) (initSt origin indent) src (Nat.lt_succ_self _)
+  exact ⟨r, h⟩
+
+/-- Partition: the source is exactly gap₁ ++ text₁ ++ … ++ gapₙ ++ textₙ ++ trailing blanks,
+in order, every gap consists of blanks only and no token is empty. -/
+theorem scan_partition (m : Mode) (origin : Pos) (indent : Nat) (src : List Char) (r : Result)
+    (h : scan m origin indent src = some r) :
+    coveredBy r.segs ++ r.trailing = src ∧ (∀ sg ∈ r.segs, Blank sg.gap ∧ sg.body ≠ []) ∧
+      Blank r.trailing := by
+  obtain ⟨r', h', ok⟩ := scanAllFuel_spec m (src.length + 1) (initSt origin indent) src (Nat.lt_succ_self _)
+  have : r' = r := by unfold scan at h; rw [h'] at h; exact Option.some.inj h
+  subst this
+  exact ⟨ok.cover, fun sg hsg => ⟨(ok.segs sg hsg).blank, (ok.segs sg hsg).nonempty⟩, ok.trailing⟩
+
+/-- The literal of every token is the exact source text it covers; the only exception
+is ILLEGAL (an unterminated text/character literal), whose literal is a message. -/
+theorem scan_literal (m : Mode) (origin : Pos) (indent : Nat) (src : List Char) (r : Result)
+    (h : scan m origin indent src = some r) :
+    ∀ sg ∈ r.segs, sg.tok.type ≠ .ILLEGAL → sg.tok.literal = sg.body := by
+  obtain ⟨r', h', ok⟩ := scanAllFuel_spec m (src.length + 1) (initSt origin indent) src (Nat.lt_succ_self _)
+  have : r' = r := by unfold scan at h; rw [h'] at h; exact Option.some.inj h
+  subst this
+  exact fun sg hsg => (ok.segs sg hsg).lit
+
+/-- Positions: every token starts at the position reached from the origin after the text
+before it and ends at the position after its own text, counted in code points with
+line breaks starting a new line at column 1; the EOF token sits at the end of the source.
+Hypothesis (exactly what the code does not do): a line break inside an alias placeholder
+`<…>` is consumed without line bookkeeping (`scan_positions_placeholder_newline` below). -/
+theorem scan_positions (m : Mode) (origin : Pos) (indent : Nat) (src : List Char) (r : Result)
+    (h : scan m origin indent src = some r) (hnl : NoNlInPlaceholders r.segs) :
+    PosOk origin r.segs ∧ r.eof.start = posAfter origin src ∧ r.eof.stop = r.eof.start := by
+  obtain ⟨r', h', ok⟩ := scanAllFuel_spec m (src.length + 1) (initSt origin indent) src (Nat.lt_succ_self _)
+  have : r' = r := by unfold scan at h; rw [h'] at h; exact Option.some.inj h
+  subst this
+  exact ok.pos hnl
+
+/-- In normal mode there are no placeholders, so `scan_positions` holds unconditionally. -/
+theorem no_placeholder_normal_mode (s0 : St) (c : Char) (cs : List Char) (strict : Bool) :
+    (scanBody ⟨strict, false⟩ s0 c cs).1.type = .ALIAS_PARAMETER → False := by
+  intro h
+  have hid := fun w => (identifierType_ne w)
+  unfold scanBody at h
+  by_cases h1 : isAlpha c = true
+  · rw [if_pos h1] at h
+    -- a word is never typed ALIAS_PARAMETER: no keyword maps to it
+    have : ∀ e ∈ keywordMap, e.2 ≠ TokenType.ALIAS_PARAMETER := by decide +kernel
+    have hk : ∀ w, keywordToTokenType w ≠ .ALIAS_PARAMETER := by
+      intro w; unfold keywordToTokenType
+      cases hl : lookupKw w with
+      | none => simp
+      | some t => obtain ⟨e, he, rfl⟩ := lookupKw_mem w t hl; simpa using this e he
+    simp only [scanIdent, emit, mkTok, identifierType] at h
+    split at h
+    · exact hk _ h
+    · exact hk _ h
+  rw [if_neg h1] at h
+  by_cases h2 : isDigit c = true
+  · rw [if_pos h2] at h; simp only [scanNum, emit, mkTok] at h; split at h <;> cases h
+  rw [if_neg h2] at h
+  by_cases h3 : c = '-'
+  · rw [if_pos h3] at h; cases h
+  rw [if_neg h3] at h
+  by_cases h4 : c = '.'
+  · rw [if_pos h4] at h; unfold scanDot at h; split at h <;> cases h
+  rw [if_neg h4] at h
+  by_cases h5 : c = ','
+  · rw [if_pos h5] at h; cases h
+  rw [if_neg h5] at h
+  by_cases h6 : c = ':'
+  · rw [if_pos h6] at h; cases h
+  rw [if_neg h6] at h
+  by_cases h7 : c = '('
+  · rw [if_pos h7] at h; cases h
+  rw [if_neg h7] at h
+  by_cases h8 : c = ')'
+  · rw [if_pos h8] at h; cases h
+  rw [if_neg h8] at h
+  by_cases h9 : c = '"'
+  · rw [if_pos h9] at h; simp only [scanStringTok] at h; split at h <;> cases h
+  rw [if_neg h9] at h
+  by_cases h10 : c = '\''
+  · rw [if_pos h10] at h; simp only [scanCharTok] at h; split at h <;> cases h
+  rw [if_neg h10] at h
+  by_cases h11 : c = '['
+  · rw [if_pos h11] at h; cases h
+  rw [if_neg h11] at h
+  have h12 : ¬ ((c = '<' && (⟨strict, false⟩ : Mode).alias) = true) := by simp
+  rw [if_neg h12] at h
+  cases h
+
+/-- Every token of the stream is the result of one `NextToken` dispatch on a non-blank
+first rune; this lifts the per-token kind theorems below to the whole stream. -/
+theorem scan_tokens_from_dispatch (m : Mode) (origin : Pos) (indent : Nat) (src : List Char) (r : Result)
+    (h : scan m origin indent src = some r) :
+    ∀ sg ∈ r.segs, ∃ s0 c cs, sg.tok = (scanBody m s0 c cs).1 ∧ sg.body = (scanBody m s0 c cs).2.2.1 ∧
+      isSpace c = false := by
+  obtain ⟨r', h', ok⟩ := scanAllFuel_spec m (src.length + 1) (initSt origin indent) src (Nat.lt_succ_self _)
+  have : r' = r := by unfold scan at h; rw [h'] at h; exact Option.some.inj h
+  subst this
+  exact fun sg hsg => (ok.segs sg hsg).fromBody
+
+/-- `scan_positions` without side condition for `scanner.Scan` (normal / strict mode). -/
+theorem scan_positions_normal (strict : Bool) (origin : Pos) (indent : Nat) (src : List Char) (r : Result)
+    (h : scan ⟨strict, false⟩ origin indent src = some r) :
+    PosOk origin r.segs ∧ r.eof.start = posAfter origin src ∧ r.eof.stop = r.eof.start := by
+  refine scan_positions _ origin indent src r h ?_
+  intro sg hsg hty
+  obtain ⟨s0, c, cs, ht, _, _⟩ := scan_tokens_from_dispatch _ origin indent src r h sg hsg
+  rw [ht] at hty
+  exact absurd hty (fun e => no_placeholder_normal_mode s0 c cs strict e)
+
+/-- Kind of a word: a token that starts with a letter is the maximal run of letters and
+digits, and its type is the keyword-table lookup of that run (exact spelling first, then
+lower-cased), IDENTIFIER otherwise. -/
+theorem word_kind (m : Mode) (s0 : St) (c : Char) (cs : List Char) (hc : isAlpha c = true) :
+    let o := scanBody m s0 c cs
+    o.1.type = identifierType o.2.2.1 ∧ (∀ d ∈ o.2.2.1, isAlphaNumeric d = true) ∧
+      (∀ d rest, o.2.2.2.1 = d :: rest → isAlphaNumeric d = false) := by
+  intro o
+  have ho : o = scanIdent m s0 c cs := by show scanBody m s0 c cs = _; unfold scanBody; rw [if_pos hc]
+  rw [ho]
+  refine ⟨rfl, ?_, ?_⟩
+  · intro d hd
+    simp only [scanIdent, emit, List.mem_cons] at hd
+    rcases hd with rfl | hd
+    · simp [isAlphaNumeric, hc]
+    · exact takeWhileSt_all _ _ _ d hd
+  · intro d rest hr
+    exact takeWhileSt_rest _ _ _ d rest hr
+
+/-- Kind of a number: a token that starts with a digit is INT — a maximal run of digits not
+followed by `,digit` — or FLOAT — digits, a comma, digits, maximal. -/
+theorem number_kind (m : Mode) (s0 : St) (c : Char) (cs : List Char) (ha : isAlpha c = false)
+    (hd : isDigit c = true) :
+    let o := scanBody m s0 c cs
+    (o.1.type = .INT ∧ (∀ d ∈ o.2.2.1, isDigit d = true) ∧
+        (∀ d rest, o.2.2.2.1 = d :: rest → isDigit d = false) ∧
+        (∀ d rest, o.2.2.2.1 = ',' :: d :: rest → isDigit d = false)) ∨
+    (o.1.type = .FLOAT ∧ ∃ a b, o.2.2.1 = a ++ ',' :: b ∧ a ≠ [] ∧ b ≠ [] ∧
+        (∀ d ∈ a, isDigit d = true) ∧ (∀ d ∈ b, isDigit d = true) ∧
+        (∀ d rest, o.2.2.2.1 = d :: rest → isDigit d = false)) := by
+  intro o
+  have ho : o = scanNum s0 c cs := by
+    show scanBody m s0 c cs = _; unfold scanBody; rw [if_neg (by simp [ha]), if_pos hd]
+  rw [ho]
+  simp only [scanNum, emit, mkTok, scanNumber]
+  have hall := takeWhileSt_all isDigit (s0.adv c) cs
+  have hrest := takeWhileSt_rest isDigit (s0.adv c) cs
+  generalize takeWhileSt isDigit (s0.adv c) cs = r at *
+  obtain ⟨st, consumed, rest, diags, f1, f2⟩ := r
+  simp only at *
+  match rest, hrest with
+  | [], _ =>
+    left
+    refine ⟨rfl, ?_, by simp, by simp⟩
+    intro d hd'; simp only [List.mem_cons] at hd'
+    rcases hd' with rfl | hd'
+    · exact hd
+    · exact hall d hd'
+  | [x], hrest =>
+    left
+    refine ⟨rfl, ?_, fun d rest e => ?_, by simp⟩
+    · intro d hd'; simp only [List.mem_cons] at hd'
+      rcases hd' with rfl | hd'
+      · exact hd
+      · exact hall d hd'
+    · exact hrest d rest e
+  | x :: y :: ds, hrest =>
+    simp only
+    split
+    · next hxy =>
+      right
+      simp only [Bool.and_eq_true, decide_eq_true_eq] at hxy
+      obtain ⟨hx, hy⟩ := hxy
+      subst hx
+      have hall2 := takeWhileSt_all isDigit (st.adv ',') (y :: ds)
+      have hrest2 := takeWhileSt_rest isDigit (st.adv ',') (y :: ds)
+      have hcons2 : (takeWhileSt isDigit (st.adv ',') (y :: ds)).consumed ≠ [] := by
+        unfold takeWhileSt; rw [if_pos hy]; simp [Sub.cons]
+      refine ⟨rfl, c :: consumed, (takeWhileSt isDigit (st.adv ',') (y :: ds)).consumed, by simp, by simp,
+        hcons2, ?_, hall2, hrest2⟩
+      intro d hd'; simp only [List.mem_cons] at hd'
+      rcases hd' with rfl | hd'
+      · exact hd
+      · exact hall d hd'
+    · next hxy =>
+      left
+      refine ⟨rfl, ?_, fun d rest e => hrest d rest e, ?_⟩
+      · intro d hd'; simp only [List.mem_cons] at hd'
+        rcases hd' with rfl | hd'
+        · exact hd
+        · exact hall d hd'
+      · intro d rest e
+        simp only [List.cons.injEq] at e
+        obtain ⟨hx, hy, _⟩ := e
+        subst hx; subst hy
+        simpa using hxy
+
+/-- Exactly one EOF token, and it is the last one. -/
+theorem scan_eof (m : Mode) (origin : Pos) (indent : Nat) (src : List Char) (r : Result)
+    (h : scan m origin indent src = some r) :
+    r.tokens.getLast? = some r.eof ∧ r.eof.type = .EOF ∧ r.eof.literal = [] ∧
+      ∀ sg ∈ r.segs, sg.tok.type ≠ .EOF := by
+  obtain ⟨r', h', ok⟩ := scanAllFuel_spec m (src.length + 1) (initSt origin indent) src (Nat.lt_succ_self _)
+  have : r' = r := by unfold scan at h; rw [h'] at h; exact Option.some.inj h
+  subst this
+  exact ⟨by simp [Result.tokens], ok.eofType, ok.eofLit, fun sg hsg => (ok.segs sg hsg).noteof⟩
+
+/-- ASCII spellings: for every keyword written with ä/ö/ü/ß the table also contains its
+transliteration (ae/oe/ue/ss) with the same token type.  A statement about the
+regenerated table, closed by kernel evaluation over the whole table. -/
+def translit : List Char → List Char
+  | [] => []
+  | c :: cs =>
+    (if c = 'ä' then ['a', 'e'] else if c = 'ö' then ['o', 'e'] else if c = 'ü' then ['u', 'e']
+     else if c = 'Ä' then ['A', 'e'] else if c = 'Ö' then ['O', 'e'] else if c = 'Ü' then ['U', 'e']
+     else if c = 'ß' then ['s', 's'] else [c]) ++ translit cs
+
+theorem ascii_spellings :
+    ∀ e ∈ keywordMap, lookupKw (translit e.1.toList) = some e.2 := by decide +kernel
+
+/-- The keyword table is a function: no spelling is listed twice with different types
+(so `lookupKw`, which takes the first hit, agrees with Go's map lookup). -/
+theorem keywordMap_functional :
+    ∀ e ∈ keywordMap, lookupKw e.1.toList = some e.2 := by decide +kernel
+
+/-- Capitalised forms: a word that is not itself a keyword is looked up in lower case. -/
+theorem keyword_kind (w : List Char) :
+    identifierType w = (match lookupKw w with
+      | some t => if t = .IDENTIFIER then keywordToTokenType (w.map toLowerChar) else t
+      | none => keywordToTokenType (w.map toLowerChar)) := by
+  unfold identifierType keywordToTokenType
+  cases lookupKw w <;> simp
+
+/-! ### the premises are satisfiable, the recorded deviation is real -/
+
+/-- non-vacuity: a concrete two-line source is scanned, positions as stated -/
+example : (scan ⟨true, false⟩ ⟨1, 1⟩ 0 "Die Zahl\n\tx ist 1,5.".toList).map
+    (fun r => r.tokens.map (fun t => (t.type, t.start, t.stop, t.indent))) =
+    some [(.DIE, ⟨1,1⟩, ⟨1,4⟩, 0), (.ZAHL, ⟨1,5⟩, ⟨1,9⟩, 0), (.IDENTIFIER, ⟨2,2⟩, ⟨2,3⟩, 1),
+      (.IST, ⟨2,4⟩, ⟨2,7⟩, 1), (.FLOAT, ⟨2,8⟩, ⟨2,11⟩, 1), (.DOT, ⟨2,11⟩, ⟨2,12⟩, 1),
+      (.EOF, ⟨2,12⟩, ⟨2,12⟩, 1)] := by decide +kernel
+
+/-- the deviation excluded by `NoNlInPlaceholders`: in alias mode a line break inside
+`<…>` does not advance the line (what the Go code does; recorded, judged harmless because
+alias literals are single-line in practice) -/
+theorem scan_positions_placeholder_newline :
+    (scan ⟨false, true⟩ ⟨1, 1⟩ 0 "<a\nb> c".toList).map (fun r => r.tokens.map (·.start)) =
+      some [⟨1,1⟩, ⟨1,7⟩, ⟨1,8⟩] := by decide +kernel
+
+end DDP.Scanner
